@@ -52,7 +52,7 @@ def gen_spec(rnd, rules=True, delays=True):
             prods = gen.multiset(rnd, species, rnd.randint(0, 3))
             if ms and rnd.random() < 0.25:
                 prods += [ms[0]]
-            r = {"type": "massaction", "reactants": ms, "products": prods, "fields": {"k": gen.pfield(rnd, "k_" + tag, gen.nice(rnd, 0.01, 10), params)}}
+            r = {"type": "massaction", "reactants": ms, "products": prods, "fields": {"k": gen.pfield(rnd, "k_" + tag, gen.nice(rnd, 0.01, 10) if rnd.random() < 0.9 else 0.0, params)}}      # a tenth of the rate constants are exactly 0
         elif ty in gen.HILL:
             r = {"type": ty, "reactants": gen.multiset(rnd, species, rnd.randint(0, 2)), "products": gen.multiset(rnd, species, rnd.randint(0, 2)),
                  "fields": gen.hill_rxn(rnd, ty, species, params, tag, lo=0.05, hi=20)}
@@ -191,6 +191,12 @@ def run_case(case):
                              "msg": "reaction %d (%s %r): kinetic law %s refers to %r, but the parameter was written with id %r" % (
                                  ri, r["type"], r["fields"], L.formulaToL3String(ast), undefined, [u[1:] for u in undefined])})
                 continue
+            unset = [n for n in names if n in gpar and n not in loc and n not in sids and not m.getParameter(n).isSetValue()]
+            if unset:
+                viol.append({"key": "C14/%s:parameter-without-value" % mech,
+                             "msg": "reaction %d (%s %r): kinetic law %s uses the global parameter(s) %r, which the document declares without a value" % (
+                                 ri, r["type"], r["fields"], L.formulaToL3String(ast), unset)})
+                continue
             if undefined or sbmlref.ast_has_unknown_function(ast):
                 viol.append({"key": "C14/%s:undefined-identifier" % mech if not hill else "C14/hill-kinetic-law",
                              "msg": "reaction %d (%s %r): kinetic law %s refers to %r which the document does not define" % (
@@ -212,7 +218,7 @@ def run_case(case):
                 C["law_evaluations"] += 1
                 if own > 0 and (len(ref.ma_multiset(r)) >= 2 if r["type"] == "massaction" else True):
                     nontrivial = True
-                if abs(val - own) > 1e-10 * max(abs(val), abs(own)) + 1e-300:
+                if not math.isfinite(val) or abs(val - own) > 1e-10 * max(abs(val), abs(own)) + 1e-300:
                     viol.append({"key": "C14/%s%s" % (mech, "" if hill else ":wrong-value"),
                                  "msg": "reaction %d (%s %r, %s export): kinetic law %s = %r at %s, the model's rate is %r" % (
                                      ri, r["type"], r["fields"] if r["type"] != "general" else ref.to_str(r["ast"]),
